@@ -536,6 +536,7 @@ theorem keeper_reserves_per_share_nondecreasing {fee : Dec} (hf0 : 0 ≤ fee) (h
     refine ⟨kr, fun h => zr (zq h), ?_⟩
     have e : depOps (op :: os) = depOps [op] + depOps os := by
       cases op <;> simp [depOps]
+      omega
     rw [e]
     exact perShareGe_trans hp kq kr sq sr zr
 
